@@ -22,7 +22,7 @@ from vt.ref import rrel as R
 
 ID = "C11"
 LEVEL = "exploration"
-CASES = {"quick": 700, "thorough": 60000}
+CASES = {"quick": 900, "thorough": 60000}
 ATTRS = ["packages", "classes", "attrs", "c", "base", "type", "parent"]
 TYPES = ["Package", "Cls", "Attr", "Model"]
 RULE = ("(expression, model) pairs: expression depth<=2 over attributes {packages, classes, attrs, c, base, type, parent}, "
@@ -74,9 +74,10 @@ def strategy(tier):
     untyped = st.one_of(G.exprs(depth=1, names=ATTRS, types=TYPES, flags=["", "", "+p:"]),
                         G.exprs(depth=2, names=ATTRS, types=TYPES, flags=["", "+p:"])).map(fix_names)
     ex = st.one_of(typed_exprs(), typed_exprs(), typed_exprs(), untyped)
-    return st.fixed_dictionaries({"expr": ex, "model": M.class_models(depth=2, max_top=2),
+    main = st.fixed_dictionaries({"expr": ex, "model": M.class_models(depth=2, max_top=2),
                                   "e2e_name": st.lists(st.sampled_from(M.NAMES), min_size=1, max_size=3),
                                   "split": st.sampled_from([".", "/"])})
+    return st.one_of(main, main, main, reflist_cases())
 
 
 # which attributes exist on which kind of object, and where they lead (used to generate expressions that
@@ -173,6 +174,9 @@ def _names():
 
 def evaluate(case):
     from arpeggio import NoMatch
+
+    if case.get("kind") == "reflist":
+        return eval_reflist(case)
     from textx import textx_isinstance
     from textx.exceptions import TextXError
     from textx.scoping import rrel
@@ -260,6 +264,12 @@ def evaluate(case):
     e2e = end_to_end(case, expr, src)
     if e2e:
         out.add(*e2e)
+    # (3) the same provider object serving two attributes with different name separators
+    if len(case["e2e_name"]) >= 2:
+        out.cls("shared_provider_two_separators")
+        e2s = end_to_end_shared(case, expr, src)
+        if e2s:
+            out.add(*e2s)
     return out
 
 
@@ -325,3 +335,188 @@ def end_to_end(case, expr, src):
         return ("e2e/wrong_target", f"rrel={src!r} text={ptext!r}: resolved to {tgt!r}, admissible "
                 f"{[a.abs_name() for a in allowed if a is not None][:4]}")
     return None
+
+
+_E2E_SHARED = {}
+
+
+def end_to_end_shared(case, expr, src):
+    """one RREL provider object (create_rrel_scope_provider(src)) registered for two reference attributes whose match
+    rules split names differently (QN: '.', QN2: '/'); both references occur in one model, in either order.  Each
+    must resolve as the reference semantics says for its own text - the provider may keep nothing from the other."""
+    from textx import metamodel_from_str, textx_isinstance
+    from textx.exceptions import TextXError, TextXSemanticError
+    from textx.scoping.rrel import create_rrel_scope_provider
+
+    names = case["e2e_name"]
+    order = [".", "/"] if case["split"] == "." else ["/", "."]
+    body = "(packages+=Package | classes+=Cls | probes+=Probe | probes2+=Probe2)*"
+    g = M.GRAMMAR.replace("(packages+=Package | classes+=Cls)*", body)
+    tail = "\nQN[split='.']: ID('.'ID)*;\nQN2[split='/']: ID('/'ID)*;\n"
+    gref = g + "\nProbe: 'probe' ref=[Cls:QN];\nProbe2: 'probe2' ref=[Cls:QN2];" + tail
+    gplain = g + "\nProbe: 'probe' txt=QN;\nProbe2: 'probe2' txt=QN2;" + tail
+    try:
+        mm = _E2E_SHARED.get(src)
+        if mm is None:
+            mm = metamodel_from_str(gref)
+            sp = create_rrel_scope_provider(src)
+            mm.register_scope_providers({"Probe.ref": sp, "Probe2.ref": sp})
+            if len(_E2E_SHARED) < 64:
+                _E2E_SHARED[src] = mm
+        mm2 = _E2E_SHARED.get("plain")
+        if mm2 is None:
+            mm2 = _E2E_SHARED["plain"] = metamodel_from_str(gplain)
+    except TextXError as e:
+        return ("e2e_shared/grammar_rejected", f"{src!r}: {e}")
+    text, root = M.build_class_model(case["model"])
+    first_pkg = root.order[0]
+    close = first_pkg.span[1] - 1
+    probes = " ".join(("probe " if sp_ == "." else "probe2 ") + sp_.join(names) for sp_ in order)
+    ptext = text[:close] + " " + probes + " " + text[close:]
+    m2 = mm2.model_from_str(ptext)
+    M.bind(root, m2)
+    node_of = {id(n.obj): n for n in root.walk()}
+    sem = R.Sem(names, lambda o: textx_isinstance(o, mm2["Cls"]), lambda o, t: textx_isinstance(o, mm2[t]))
+    exp = {}
+    for kind, attr in ((".", "probes"), ("/", "probes2")):
+        p2 = getattr(m2.packages[0], attr)[0]
+        alts = [sem.results(alt, p2) for alt in expr["paths"]]
+        exp[kind] = next((a for a in alts if a), None)
+    try:
+        model = mm.model_from_str(ptext)
+    except TextXSemanticError as e:
+        if e.err_type != "Unknown object":
+            return ("e2e_shared/unexpected_error", f"rrel={src!r} text={ptext!r}: {e}")
+        if all(v is not None for v in exp.values()):
+            return ("e2e_shared/completeness", f"rrel={src!r} text={ptext!r}: both references resolve by the semantics, "
+                    f"textX: {e.message}")
+        return None
+    except TextXError as e:
+        return ("e2e_shared/model_rejected", f"{ptext!r}: {e}")
+    M.bind(root, model)
+    node1 = {id(n.obj): n for n in root.walk()}
+    for kind, attr in ((".", "probes"), ("/", "probes2")):
+        got = getattr(model.packages[0], attr)[0].ref
+        tgt = got._tx_obj if "p" in expr["flags"] else got
+        first = exp[kind]
+        if first is None:
+            return ("e2e_shared/soundness", f"rrel={src!r} text={ptext!r}: {kind!r} reference resolved to {tgt!r} "
+                    f"without a derivation")
+        allowed = [node_of.get(id(o)) for o, _ in first]
+        tnode = node1.get(id(tgt))
+        if tnode is None or not any(a is tnode for a in allowed):
+            return ("e2e_shared/wrong_target", f"rrel={src!r} text={ptext!r}: {kind!r} reference resolved to {tgt!r}")
+    return None
+
+
+# (4) RREL navigation through a multi-valued reference attribute whose entries are resolved in different passes -----
+REFLIST_GRAMMAR = r"""
+Model: classes+=Class calls*=Call aliases*=Alias;
+Class: 'class' name=ID ('extends' extends+=[Class:ID|classes, aliases.~target][','])? '{' methods*=Method '}';
+Method: 'def' name=ID ';';
+Call: 'fqcall' fm=[Method:FQN|classes.~extends*.methods] ';';
+Alias: 'alias' name=ID '=' target=[Class] ';';
+FQN: ID ('.' ID)*;
+"""
+_REFLIST_MM = None
+
+
+@st.composite
+def reflist_cases(draw):
+    n = draw(st.integers(2, 4))
+    classes = []
+    for i in range(n):
+        ext = draw(st.lists(st.tuples(st.integers(0, n - 1), st.booleans()).map(list), max_size=3))
+        classes.append({"methods": draw(st.lists(st.sampled_from(["m0", "m1", "m2"]), max_size=2, unique=True)), "extends": ext})
+    calls = draw(st.lists(st.tuples(st.just("fqcall"), st.integers(0, n - 1),
+                                    st.sampled_from(["m0", "m1", "m2"])).map(list), min_size=1, max_size=3))
+    return {"kind": "reflist", "classes": classes, "calls": calls, "default": None}
+
+
+def eval_reflist(case):
+    from textx import metamodel_from_str
+    from textx.exceptions import TextXSemanticError
+
+    global _REFLIST_MM
+    out = Outcome()
+    if _REFLIST_MM is None:
+        _REFLIST_MM = metamodel_from_str(REFLIST_GRAMMAR)
+    cl = case["classes"]
+    n = len(cl)
+    lines = []
+    via_alias = set()
+    for i, c in enumerate(cl):
+        ext = []
+        for j, alias in c["extends"]:
+            if alias:
+                via_alias.add(j)
+                ext.append(f"x{j}")
+            else:
+                ext.append(f"c{j}")
+        lines.append(f"class c{i} " + ("extends " + ", ".join(ext) + " " if ext else "") + "{ " +
+                     " ".join(f"def {m};" for m in c["methods"]) + " }")
+    if case["default"]:
+        lines.append(f"default def {case['default']};")
+    for kind, i, m in case["calls"]:
+        lines.append(f"{kind} c{i}.{m};")
+    for j in sorted(via_alias):
+        lines.append(f"alias x{j} = c{j};")
+    text = "\n".join(lines) + "\n"
+    out.sample = {"kind": "reflist", "text": text}
+
+    def reach(i):
+        seen, todo = [], [i]
+        while todo:
+            k = todo.pop(0)
+            if k in seen:
+                continue
+            seen.append(k)
+            todo += [j for j, _ in cl[k]["extends"]]
+        return seen
+
+    expected = []
+    alias_needed = False
+    for kind, i, m in case["calls"]:
+        owners = [k for k in reach(i) if m in cl[k]["methods"]]
+        direct = set()
+        todo = [i]
+        while todo:  # reachable without passing an alias entry
+            k = todo.pop()
+            if k in direct:
+                continue
+            direct.add(k)
+            todo += [j for j, a in cl[k]["extends"] if not a]
+        if owners and not any(k in direct for k in owners):
+            alias_needed = True
+        if owners:
+            expected.append(("class", owners))
+        elif kind == "call" and case["default"] == m:
+            expected.append(("default",))
+        else:
+            expected.append(("unknown", m))
+    out.cls("kind:reflist")
+    if alias_needed:
+        out.cls("target_only_through_postponed_entry")
+    out.nontrivial = alias_needed
+    first_err = next((e for e in expected if e[0] == "unknown"), None)
+    try:
+        model = _REFLIST_MM.model_from_str(text)
+    except TextXSemanticError as e:
+        if first_err is None:
+            return out.add("reflist/completeness" + ("/through_postponed_entry" if alias_needed else ""),
+                           f"text={text!r}: every call resolves by the semantics, textX: {e}")
+        return out
+    if first_err is not None:
+        return out.add("reflist/soundness", f"text={text!r}: accepted although {first_err} has no target")
+    for (kind, i, m), exp, call in zip(case["calls"], expected, model.calls):
+        got = call.fm
+        if exp[0] == "class":
+            ok = any(got is x for k in exp[1] for x in model.classes[k].methods if x.name == m)
+            if not ok:
+                where = "defaults" if any(got is d for c in model.calls for d in getattr(c, "defaults", [])) else repr(got)
+                out.add("reflist/wrong_target" + ("/through_postponed_entry" if alias_needed else ""),
+                        f"text={text!r}: {kind} c{i}.{m} resolved to {where}, admissible: method {m} of classes {exp[1]}")
+        else:
+            if not any(got is d for c in model.calls for d in getattr(c, "defaults", [])):
+                out.add("reflist/wrong_target", f"text={text!r}: {kind} c{i}.{m} should resolve to the default method")
+    return out
